@@ -931,6 +931,7 @@ class GameCoordinator:
         self.logger.debug(f"Storing Trajectory of {agent_addr}in file")
         if agent_addr in self._agent_trajectories:
             agent_name, agent_role = self.agents[agent_addr] 
+            os.makedirs(location, exist_ok=True)
             filename = os.path.join(location, f"{datetime.now():%Y-%m-%d}_{agent_name}_{agent_role}.jsonl")
             with jsonlines.open(filename, "a") as writer:
                 writer.write(self._agent_trajectories[agent_addr])
